@@ -19,6 +19,17 @@ func (v *VTree) Publisher() Controller { return v.t.nodes[0].pub }
 
 // Create adds an object to the root's cache and, once the root is ready,
 // publishes the resulting event like a controller does.
+// Update replaces an object of the root's cache by a newer version and, once the root
+// is ready, publishes the resulting event.
+func (v *VTree) Update(o metav1.Object) {
+	ev := NewEvent(EventTypeUpdate, o)
+	out, err := v.t.pcache.update(ev)
+	zzverif.Assert(err == nil && len(out) == 1, "harness/parent-update")
+	if vClosed(v.t.root.readych) {
+		v.t.root.evch <- out[0]
+	}
+}
+
 func (v *VTree) Create(o metav1.Object) {
 	ev := NewEvent(EventTypeCreate, o)
 	out, err := v.t.pcache.update(ev)
